@@ -105,8 +105,13 @@ class OptionBag:
         self._basic_key = schema.registry.get("basic-key")
         for item in options:
             optpath, val, pos = item
-            name = sectiontype.keytype(optpath[0])
             if len(optpath) == 1:
+                try:
+                    name = sectiontype.keytype(optpath[0])
+                except ValueError as e:
+                    url, lineno, colno = pos
+                    raise ZConfig.DataConversionError(
+                        e, optpath[0], (lineno, colno, url))
                 self.add_value(name, val, pos)
             else:
                 self.sectitems.append(item)
